@@ -118,8 +118,15 @@ func c19Config() TLSConfig {
 	case 3:
 		c.RemoteCAPath = "http://ca.example/bundle"
 	}
-	if verifNondetBool("hasServerName") {
+	// the configured name the peer's certificate must match: a DNS name or an IP literal
+	switch verifChoose("serverName", 4) {
+	case 1:
 		c.CAServerName = "peer.example"
+	case 2:
+		c.CAServerName = "10.20.30.40"
+		verifReach("ip-literal-server-name")
+	case 3:
+		c.CAServerName = "::1"
 	}
 	c.SkipCAVerification = verifNondetBool("skipVerification")
 	c19Cur = &c19Bundle{blocks: verifChoose("bundle-blocks", verifParam("maxblocks", 2)+1)}
